@@ -49,10 +49,10 @@ from sim.core import sub_rng, jdump
 PROP = "C10"
 LEVEL = "exploration"
 TIERS = {"quick": dict(runs=160, chunk=2), "thorough": dict(budget_s=480, max_runs=6000, chunk=2)}
-RUN_WALL_CAP = 90
+RUN_WALL_CAP = 120
 CHUNK_WALL_CAP = 900
-WORK_BUDGET = {"quick": 60_000, "thorough": 400_000}     # numpy.linalg.norm calls per run (deterministic)
-INNER_WALL_CAP = 30.0                                     # seconds per run (backstop, real clock)
+WORK_BUDGET = {"quick": 80_000, "thorough": 400_000}     # numpy.linalg.norm calls per run (deterministic)
+INNER_WALL_CAP = 45.0                                     # seconds per run (backstop, real clock)
 RULE = ("one case = one minimize_mma run on a generated convex problem: 1-4 variable signals (float / 1-element array / "
         "vector, n <= 6 quick, n <= 8 thorough), objective dense-quadratic / separable-quadratic / sum c_i/x_i, 1-4 "
         "constraints (linear / convex quadratic / reciprocal, on all or a subset of the signals), xmin / xmax / move each "
@@ -201,7 +201,7 @@ def gen(rng, idx, tier):
     positive = obj == "recip" or any(c["kind"] == "recip" for c in cons) or bool(rng.random() < 0.4)
     modes = ["scalar", "scalar", "signal", "var"]
     if tier == "quick":
-        maxit = int(rng.choice([12, 20, 30, 40]))
+        maxit = int(rng.choice([15, 30, 45, 60]))
     else:
         maxit = int(rng.choice([20, 40, 60, 100, 150, 300]))
     return dict(
@@ -433,8 +433,11 @@ def run(case):
              f"cons={'/'.join(c['kind'] + ('s' if c['sub'] else '') for c in case['cons'])}", f"min={case['min_mode']}",
              f"max={case['max_mode']}", f"move={case['move_mode']}", f"version={version}", f"net={case['net']}"]
 
-    def viol(clause, msg, at):
-        res["violations"].append(dict(cls=["C10", clause], msg=msg, at=at, features=feats))
+    def viol(clause, msg, at, extra=()):
+        res["violations"].append(dict(cls=["C10", clause], msg=msg, at=at, features=feats + list(extra)))
+
+    def hard():
+        return any(v["cls"][1] != "sub-kkt" for v in res["violations"])
 
     # ---- signals and network
     Signal = pym.Signal
@@ -510,7 +513,8 @@ def run(case):
         probe("spy_installed")
     else:
         skip("no_subsolv_seam")
-    state = dict(prev_off=None, wb_checked=0)
+    state = dict(prev_off=None, wb_checked=0, kkt_reported=False)
+    buf = io.StringIO()
 
     def snapshot():
         return [np.array(s.state, dtype=float).ravel().copy() for s in sig]
@@ -553,7 +557,7 @@ def run(case):
                      f"{_r(lim[j])} (from {_r(xp[j])} to {_r(x[j])})", k)
                 raise _Stop()
             fl = ""
-            if np.any(x <= lo + btol) or np.any(x >= hi - btol):
+            if np.any(x <= lo + 1e-6 * dxr) or np.any(x >= hi - 1e-6 * dxr):
                 probe("variable_at_bound")
                 fl += "b"
             if np.any(step >= lim * (1 - 1e-9)):
@@ -582,9 +586,10 @@ def run(case):
         ok_args = all(nm in A for nm in names)
         if ok_args:
             A = {nm: (np.array(v, dtype=float, copy=True) if not np.isscalar(v) else float(v)) for nm, v in A.items()}
-        _S_count0 = _S["count"]
+        _S_count0, pos0 = _S["count"], buf.tell()
         out = _S["orig_subsolv"](*args, **kwargs_)
         rec["work"] = _S["count"] - _S_count0
+        rec["capmsg"] = "MMA Subsolver: itt" in buf.getvalue()[pos0:]
         if not ok_args or len(snaps) != k + 1:
             skip("subproblem_interface_not_aligned")
             try:
@@ -682,10 +687,14 @@ def run(case):
         rec["kkt"] = worst / bound
         margin("kkt_residual_over_bound", worst / bound)
         if not np.isfinite(worst) or worst > bound or neg < -bound:
-            viol("sub-kkt", f"subproblem {k}: KKT residual of the returned point is {worst:.3e} ({worst_nm}), smallest "
-                 f"multiplier/slack {neg:.3e}; requested accuracy epsimin = {eps:.3e} admits {bound:.3e} "
-                 f"(norm calls inside this subproblem: {rec.get('work')})", k)
-            raise _Stop()
+            rec["fl_kkt"] = True
+            if not state["kkt_reported"]:
+                # the design sequence stays well defined after an inexact subproblem: record once, keep observing
+                state["kkt_reported"] = True
+                viol("sub-kkt", f"subproblem {k}: KKT residual of the returned point is {worst:.3e} ({worst_nm}), smallest "
+                     f"multiplier/slack {neg:.3e}; requested accuracy epsimin = {eps:.3e} admits {bound:.3e} "
+                     f"(norm calls inside this subproblem: {rec.get('work')}; solver printed its Newton-cap message: "
+                     f"{rec.get('capmsg')})", k, extra=["newton_cap_hit" if rec.get("capmsg") else "newton_cap_silent"])
         # ---- probes from the interface: asymptote widening / narrowing
         off = (upp - low) / (2 * dxr)
         if state["prev_off"] is not None:
@@ -702,7 +711,6 @@ def run(case):
     # ---- execute
     tier = case.get("tier", "quick")
     exc, capped = None, None
-    buf = io.StringIO()
     _S.update(armed=True, count=0, budget=int(WORK_BUDGET.get(tier, WORK_BUDGET["quick"])), t0=core._real_perf(),
               handler=handler if have_spy else None)
     try:
@@ -730,16 +738,16 @@ def run(case):
     for k in range(len(snaps)):
         tok = "it:" + (it_flags[k - 1] if 1 <= k <= len(it_flags) else "")
         if k < len(subs):
-            tok += subs[k].get("fl", "")
+            tok += subs[k].get("fl", "") + ("N" if subs[k].get("capmsg") else "") + ("K" if subs[k].get("fl_kkt") else "")
         res["trace"].append(tok)
 
     if capped is not None:
         skip("work_cap" if capped == "work" else "wall_cap")
         res["trace"].append("end:cap-" + capped)
-    elif exc is not None and not res["violations"]:
+    elif exc is not None and not hard():
         viol("exception", f"minimize_mma raised {type(exc).__name__}: {str(exc)[:300]} after {len(snaps)} iterations", len(snaps))
         res["trace"].append("end:EXC:" + type(exc).__name__)
-    elif not res["violations"]:
+    elif not hard():
         # ---- the design left in the signals
         try:
             _S["armed"] = False
@@ -756,10 +764,10 @@ def run(case):
                         viol("bounds", f"after the run: variable {j} = {_r(xfin[j])} outside [{_r(lo[j])}, {_r(hi[j])}]", len(snaps))
         except Exception as ex:  # noqa
             viol("exception", f"reading the variable signals after the run raised {type(ex).__name__}: {str(ex)[:200]}", len(snaps))
-        if not res["violations"]:
+        if not hard():
             _liveness(case, pb, res, snaps, subs, probe, skip, margin, viol, out_txt)
-    elif res["violations"]:
-        res["trace"].append("end:V:" + res["violations"][0]["cls"][1])
+    else:
+        res["trace"].append("end:V:" + [v["cls"][1] for v in res["violations"] if v["cls"][1] != "sub-kkt"][0])
 
     res["nontrivial"] = len(subs) >= 2 and state["wb_checked"] >= 1
     kk = [s.get("kkt", 0.0) for s in subs]
@@ -772,7 +780,6 @@ def _liveness(case, pb, res, snaps, subs, probe, skip, margin, viol, out_txt):
     resps, lo, hi, mv = pb["resps"], pb["lo"], pb["hi"], pb["mv"]
     maxit = int(case["maxit"])
     nit = len(snaps)
-    stopped = nit < maxit or (len(subs) == nit and nit == maxit and False)
     # stopping reason: the loop ends either at maxit or by the step-size criterion
     converged = nit <= maxit and len(subs) == nit and nit > 0 and case["tolx"] > 0 and _last_step_small(case, pb, snaps, subs)
     if converged:
@@ -794,29 +801,32 @@ def _liveness(case, pb, res, snaps, subs, probe, skip, margin, viol, out_txt):
     if max(r.value(xstar) for r in resps[1:]) > -1e-7:
         probe("constraint_active_at_optimum")
     x_end = np.concatenate(snaps[-1])
-    if subs and subs[-1].get("xret") is not None and len(subs) == nit:
-        x_last = subs[-1]["xret"]          # the last subproblem solution is never written back; the evaluated design counts
     x0 = pb["x0"]
     f0, fe = resps[0].value(x0), resps[0].value(x_end)
     gap0 = max(abs(f0 - fstar), 1e-2 * (1.0 + abs(fstar)))
     gape = abs(fe - fstar)
     ge = max(r.value(x_end) for r in resps[1:])
-    # enough iterations to travel: every variable could have crossed its range twice, and at least 25 iterations
+    # Iteration budget that entitles the caller to a 1 % gap.  MMA approximations are monotone in every variable, so around an
+    # interior optimum the iterates oscillate with an amplitude that only shrinks with the asymptotes (factor asydecr per
+    # iteration): 20 iterations + the time for the asymptote offset to shrink 100-fold, and enough travel to cross the box twice.
+    need = 20 + int(np.ceil(np.log(0.01) / np.log(float(case["asydecr"]))))
     travel = float(np.min(mv)) * (nit - 1)
-    if not converged and (nit < 25 or travel < 2.0):
+    if not converged and (nit < need or travel < 2.0):
         skip("liveness_not_judged_budget_too_small")
         res["trace"].append("live:skip-budget")
         margin("unjudged_gap_over_bound", gape / (0.01 * gap0))
         return
     probe("liveness_judged")
     margin("objective_gap_over_bound", gape / (0.01 * gap0))
-    margin("constraint_value_over_bound", max(ge, 0.0) / 1e-6)
+    # a run that ends by the step-size criterion is only accurate to that criterion (constraints are normalised to O(1))
+    cbound = 1e-6 + (10.0 * case["tolx"] if converged else 0.0)
+    margin("constraint_value_over_bound", max(ge, 0.0) / cbound)
     if gape > 0.01 * gap0:
         viol("liveness", f"after {nit} iterations ({'converged by tolx' if converged else 'maxit'}) f = {_r(fe)} while the "
              f"reference optimum is {_r(fstar)}: gap {gape:.3e} > 1 % of the initial gap {gap0:.3e} (f(x0) = {_r(f0)})", nit)
         res["trace"].append("live:GAP")
-    elif ge > 1e-6:
-        viol("liveness", f"after {nit} iterations the largest constraint value is {ge:.3e} > 1e-6 (constraints are "
+    elif ge > cbound:
+        viol("liveness", f"after {nit} iterations the largest constraint value is {ge:.3e} > {cbound:.1e} (constraints are "
              f"normalised to O(1)); f = {_r(fe)}, reference optimum {_r(fstar)}", nit)
         res["trace"].append("live:CON")
     else:
